@@ -172,7 +172,11 @@ func (c17) Generate(rng *rand.Rand, tier string, st *Stats) []Case {
 		cases = append(cases, Case{ID: fmt.Sprintf("rnd%d", i), Ops: ops})
 	}
 	// long queues: hundreds of stanzas outstanding (the backing array grows several times), drained in between
-	for k, n := range []int{70, 150, 400} {
+	longs := []int{70, 150, 400}
+	if tier == "thorough" {
+		longs = append(longs, 1100, 2100) // beyond 1024 and 2048 outstanding stanzas
+	}
+	for k, n := range longs {
 		var ops [][]string
 		for j := 0; j < n; j++ {
 			ops = append(ops, []string{"push", hx(fmt.Sprintf("<m n='%d'/>", j))})
